@@ -12,7 +12,7 @@ import (
 func init() { register("C15", "exploration", runC15) }
 
 var (
-	c15SrcNames  = []string{"s1", "s2", "dir/s3", "s 4", "s.5", "empty"}
+	c15SrcNames = []string{"s1", "s2", "dir/s3", "s 4", "s.5", "empty"}
 	// names that contain the API's own verbs (the client percent-encodes object names, so the URLs are unambiguous)
 	c15VerbNames = []string{"docker/compose.yaml", "a/compose", "x/rewriteTo/b/y/o/z", "compose"}
 	c15DstNames  = []string{"out", "dir/out.bin", "a b c", "x..y", ".dot", "dir.d/sub dir/o", "ä/ö", "deep/er/est/out"}
@@ -32,6 +32,7 @@ func runC15(run *common.Run) {
 		"file store: only names representable as files",
 		"zero-valued byte counts / sizes may be omitted from JSON",
 		"an object stored with contentEncoding gzip is served as stored to a client that sends 'Accept-Encoding: gzip'; without that header the stored bytes or their decompressed form are accepted",
+		"a request that gets no answer within the client watchdog (20 s for PATCH / DELETE / compose / rewrite, 60 s otherwise) is reported as 'request not answered within <d>: <request>', the case is abandoned and its server not used again; after 3 such reports the run stops (a copy of an object onto itself, a compose whose destination is among its sources etc. must be answered like any other)",
 	}
 	j := common.NewJournal("C15")
 	n := run.N(1500, 40000)
@@ -40,30 +41,23 @@ func runC15(run *common.Run) {
 		return
 	}
 	common.Parallel(W, W, func(w int) {
-		srvs := map[string]*drive.Server{}
-		defer func() {
-			for _, s := range srvs {
-				s.Close()
-			}
-		}()
+		srvs := srvPool{}
+		defer srvs.closeAll()
 		for idx := w; idx < n; idx += W {
 			if !run.Want("case", idx) {
 				continue
 			}
-			if run.TooMany() {
+			if tooMany(run) {
 				return
 			}
 			store := drive.Stores[idx%2]
-			if srvs[store] == nil {
-				s, err := drive.Start(store, "")
-				if err != nil {
-					run.Violation("case", idx, "cannot start emulator: "+err.Error(), nil)
-					return
-				}
-				srvs[store] = s
+			srv, err := srvs.get(store) // (a server on which a request went unanswered is replaced)
+			if err != nil {
+				run.Violation("case", idx, "cannot start emulator: "+err.Error(), nil)
+				return
 			}
 			j.Begin(w, fmt.Sprintf("C15 case=%d store=%s seed=%d", idx, store, run.Seed))
-			c15Case(run, srvs[store], idx)
+			c15Case(run, srv, idx)
 			j.End(w)
 		}
 	})
@@ -549,6 +543,9 @@ func c15Case(run *common.Run, srv *drive.Server, idx int) {
 			}
 			if e.stats["copies_ok"] > before {
 				okOps++
+				if selfCopy {
+					run.Count("copies_onto_the_source_itself_ok", 1)
+				}
 				if composed[sn] {
 					reused++
 				}
